@@ -371,6 +371,15 @@ def gen_cases(rng, count, nmin, nmax, kinds, max_len, cfg_choices=(100000,), two
         cfg = {"max_motifs_per_node": rng.choice(cfg_choices)}
         h = H.gen_history(rng, n, max_len=max_len, kinds=kinds)
         cases.append({"rules": rules, "config": cfg, "history": h})
+    # structured histories in ADDITION to the uniform ones, from a separate random stream (so that adding them does not change
+    # which uniform cases are generated): a fifth more cases
+    rng2 = random.Random(rng.random())
+    for _ in range(count // 5):
+        rules = gen_network(rng2, max(nmin, 3), nmax)
+        h = H.gen_template_history(rng2, len(rules.splitlines()), max_len=max_len, kinds=kinds)
+        if h is None:
+            break
+        cases.append({"rules": rules, "config": {"max_motifs_per_node": 100000}, "history": h})
     return cases
 
 def _fix_worker(case):
